@@ -632,6 +632,7 @@ class Walker:
         self.version = itertools.count(1)
         self.loop_stack = []
         self.snap_defs = {}
+        self.local_ty = {}
         for p in body.params:
             if p.get("k") == "PBind" and (p.get("mut") or F.types[p["t"]].startswith("&mut")):
                 self.T.mut_locals.add(p["id"])
@@ -729,7 +730,7 @@ class Walker:
         """Locals whose symbolic value mentions a place about to be killed keep their identity:
         the value is replaced by a fresh variable everywhere (facts and other locals), so facts
         about the local survive the mutation of the state it was computed from."""
-        items = [(lid, tt) for lid, tt in self.T.env.items() if tt[0] != "var" and mentions(tt, pred)]
+        items = [(lid, tt) for lid, tt in self.T.env.items() if tt[0] != "var" and not self.local_ty.get(lid, "").startswith("&") and mentions(tt, pred)]
         items.sort(key=lambda x: -len(repr(x[1])))
         for lid, tt in items:
             cur = self.T.env.get(lid)
@@ -777,6 +778,7 @@ class Walker:
     def bind_pat(self, p, term, K, mutable_ok=True):
         k = p.get("k")
         if k == "PBind":
+            self.local_ty[p["id"]] = self.F.types[p["t"]]
             if p.get("mut") or self.F.types[p["t"]].startswith("&mut"):
                 self.T.mut_locals.add(p["id"])
             if term is None:
@@ -855,10 +857,11 @@ class Walker:
             if self.walk(n["r"], K):
                 return True
             self.visit_subexprs(n["l"], K)
+            if n["l"].get("k") in ("Index", "Field", "Unary"):
+                self.notify(n["l"], K)
             l = n["l"]
             rt = self.T.term(n["r"])
-            if k == "AssignOp":
-                self.notify(n, K)
+            self.notify(n, K)
             if l.get("k") == "Path" and l.get("res") == "local":
                 lid = l["id"]
                 if k == "Assign":
